@@ -35,7 +35,7 @@ def fn_case(draw):
     d = draw(st.integers(1, 4))
     idx = draw(st.integers(0, d - 1))
     c = {'family': fam, 'd': d, 'index': idx, 'explicit_dim': draw(st.booleans()), 'seed': draw(gen.SEED),
-         'm': draw(st.integers(1, 5)),
+         'm': draw(st.integers(1, 5)), 'first_call': draw(st.sampled_from(['call', 'gradient', 'hessian', 'partial', 'partial2'])),
          'point_type': draw(st.sampled_from(['float', 'float', 'float_list', 'int_array', 'int_list'])) if fam != 'bspline' else 'float'}
     fl = lambda a, b: draw(st.floats(a, b, allow_nan=False, allow_infinity=False))
     if fam == 'monomial':
@@ -145,6 +145,31 @@ def body_fn(case):
     require(arr.shape == (X.shape[1],), 'array_eval', 'f(X) has shape %s for %d points' % (arr.shape, X.shape[1]))
     close(arr, vals, 1e-13, 1.0 + np.max(np.abs(vals)), 'array_eval', 'f(X)[j] vs f(X[:, j])')
 
+    # call-order independence: on a fresh object the very first method called may be any of them (objects built without an
+    # explicit dimension infer it lazily on first use)
+    fc = case.get('first_call', 'call')
+    if fc != 'call':
+        rng2 = np.random.default_rng(case['seed'])
+        fresh, _, _, _ = make_fn(case, rng2)
+        x0 = X[:, 0].copy()
+        lab.add('first_call_' + fc)
+        try:
+            if fc == 'gradient':
+                got = np.asarray(fresh.gradient(x0), dtype=float)
+                want = np.asarray(f.gradient(x0), dtype=float)
+            elif fc == 'hessian':
+                got = np.asarray(fresh.hessian(x0), dtype=float)
+                want = np.asarray(f.hessian(x0), dtype=float)
+            elif fc == 'partial':
+                got = np.asarray([float(fresh.partial(x0, k)) for k in range(d)])
+                want = np.asarray([float(f.partial(x0, k)) for k in range(d)])
+            else:
+                got = np.asarray([float(fresh.partial2(x0, idx, k)) for k in range(d)])
+                want = np.asarray([float(f.partial2(x0, idx, k)) for k in range(d)])
+            require(got.shape == want.shape, 'first_call', '%s as the first call on a fresh object returned shape %s, expected %s' % (fc, got.shape, want.shape))
+            close(got, want, 1e-13, 1.0 + np.max(np.abs(want)), 'first_call', '%s as the first call on a fresh object' % fc)
+        except NotImplementedError:
+            pass
     pt = case.get('point_type', 'float')
     if pt != 'float':
         lab.add('point_' + pt)
@@ -219,5 +244,5 @@ def nt(labels):
 
 
 SUBCHECKS = [
-    Sub('functions', fn_case(), body_fn, nt, quick=500, thorough=6000, shards_quick=4, classes=FAMILIES + ['dim>1', 'lazy_dimension', 'non_test_parameter', 'point_int_array', 'point_int_list', 'point_float_list']),
+    Sub('functions', fn_case(), body_fn, nt, quick=500, thorough=6000, shards_quick=4, classes=FAMILIES + ['dim>1', 'lazy_dimension', 'non_test_parameter', 'point_int_array', 'point_int_list', 'point_float_list', 'first_call_gradient', 'first_call_hessian']),
 ]
